@@ -23,7 +23,15 @@ RULE = ("All 136 (k, n) pairs with 1 <= k <= n <= 16, 16- and 32-byte secrets, s
         "ShareSet object, _crypt with arbitrary round lists, parse-then-encode on accepted texts of standard and non-standard "
         "lengths, split_secret with its random draws and digest fixed (split_with), share mnemonics of two generate_shares calls "
         "mixed at recover_mnemonic, text-level corruptions (other word in full / as prefix, junk, case), and for every (k, n) the "
-        "secrecy replay: k-1 observed shares re-obtained from the library's split of another secret.")
+        "secrecy replay: k-1 observed shares re-obtained from the library's split of another secret. Mutation-adequacy round: "
+        "cases are built with independent helpers of this module (RS1024 by polynomial division over GF(1024), share codec, BIP39, "
+        "Feistel, split, whole pipeline), which also serve as references (every generated share text equals the SLIP39 share; "
+        "Share.parse vs the independent decoder on every word list, top value word on both sides of the padding boundary for 18..40 "
+        "words, white space); the randbits stand-in honours the requested width; 128- and 256-bit shares of one id in one set with the "
+        "odd share at every position; fewer shares than the DECLARED threshold whose digest verifies (lower-threshold split "
+        "relabelled), group and member level; sentences and secret lengths generate_shares / split_secret must refuse; 1-of-1 "
+        "shares of every length 128..320 bits through recover_mnemonic; Share objects edited in place; RS1024 symbols outside "
+        "0..1023 (correspondence only).")
 TRUSTED = ["hashlib/hmac (sha256, hmac-sha256, pbkdf2_hmac): universally quantified functions in the theorems; in "
            "the extracted model pbkdf2_hmac is RFC 8018 PBKDF2 (Spec/Pbkdf2S.v) over the HMAC oracle",
            "harness/gen_coq.py copies the word-list files into coq/Generated/Wordlists.v"]
@@ -49,15 +57,24 @@ def stub_kdf(name, pw, salt, iters, dklen=None):
 
 
 class Rnd:
+    """secrets.randbits replaced by supplied values, HONOURING the requested width: a request for 15 bits is
+    answered by the identifier and one for 8 bits by the next byte of the stream (what the model takes as inputs);
+    a request for more bits gets a value with the top bit of that width set, one for fewer bits the value masked
+    to that width — both are outcomes the real randbits has, so a wrong width in the library shows"""
+
     def __init__(self, ident, data):
-        self.ident, self.data, self.pos = ident, data, 0
+        self.ident, self.data, self.pos, self.widths = ident, data, 0, []
 
     def __call__(self, nbits):
-        if nbits == 15:
-            return self.ident
-        b = self.data[self.pos]   # IndexError when the supplied stream is exhausted
-        self.pos += 1
-        return b
+        self.widths.append(nbits)
+        if nbits >= 12:
+            v, w = self.ident, 15
+        else:
+            v, w = self.data[self.pos], 8   # IndexError when the supplied stream is exhausted
+            self.pos += 1
+        if nbits > w:
+            return v | (1 << (nbits - 1))
+        return v & ((1 << nbits) - 1) if nbits >= 0 else v
 
 
 class patched:
@@ -227,6 +244,150 @@ def ref_interp(x, pts):
     return bytes(out)
 
 
+def gf1024_mul(a, b):
+    """carry-less multiplication modulo x^10+x^3+1 (the field of the RS1024 code)"""
+    r = 0
+    for i in range(10):
+        if (b >> i) & 1:
+            r ^= a << i
+    for i in range(18, 9, -1):
+        if (r >> i) & 1:
+            r ^= 0x409 << (i - 10)
+    return r
+
+
+def _rs_generator():
+    """(x - a)(x - a^2)(x - a^3) over GF(1024), a = the class of x; coefficients high first"""
+    g, a = [1], 1
+    for _ in range(3):
+        a = gf1024_mul(a, 2)
+        g = [p ^ q for p, q in zip(g + [0], [0] + [gf1024_mul(c, a) for c in g])]
+    return g
+
+
+_RSG = _rs_generator()
+_RSMUL = [[gf1024_mul(t, c) for t in range(1024)] for c in _RSG[1:]]
+
+
+def ref_polymod(values):
+    """x^len + sum v_i x^(len-1-i) reduced modulo the generator polynomial, by polynomial long division over GF(1024)
+    (independent of the bit-sliced GEN table of the library); symbols must be in 0..1023"""
+    r2, r1, r0 = 0, 0, 1
+    for v in values:
+        if not 0 <= v < 1024:
+            raise ValueError("symbol outside GF(1024)")
+        r2, r1, r0 = r1 ^ _RSMUL[0][r2], r0 ^ _RSMUL[1][r2], v ^ _RSMUL[2][r2]
+    return (r2 << 20) | (r1 << 10) | r0
+
+
+def ref_rs_create(cs, data):
+    pm = ref_polymod(list(cs) + list(data) + [0, 0, 0]) ^ 1
+    return [(pm >> 20) & 1023, (pm >> 10) & 1023, pm & 1023]
+
+
+def enc_share(f):
+    """fields -> SLIP39 share text, written from the SLIP39 layout (id 15, exponent 5, GI 4, Gt-1 4, g-1 4, I 4, t-1 4 bits,
+    value left-padded with zero bits to a multiple of 10, 3 checksum words); fields must be in range"""
+    bits, ident, e, gi, gt, gc, mi, mt, value = f
+    if not (bits > 0 and 0 <= ident < 32768 and 0 <= e < 32 and 0 <= gi < 16 and 1 <= gt <= 16 and 1 <= gc <= 16
+            and 0 <= mi < 16 and 1 <= mt <= 16 and 0 <= value < (1 << bits)):
+        raise ValueError("field out of range")
+    nv = -(-bits // 10)
+    hdr = (ident << 25) | (e << 20) | (gi << 16) | ((gt - 1) << 12) | ((gc - 1) << 8) | (mi << 4) | (mt - 1)
+    allbits = (hdr << (10 * nv)) | value
+    idx = [(allbits >> (10 * (nv + 3 - i))) & 1023 for i in range(nv + 4)]
+    return " ".join(SL[i] for i in idx + ref_rs_create(b"shamir", idx))
+
+
+def dec_share(t):
+    """independent decoder of a share text spelled in full words: the nine fields"""
+    idx = [SLI[w] for w in t.split(" ")]
+    if len(idx) < 20 or ref_polymod(list(b"shamir") + idx) != 1:
+        raise ValueError("not a share")
+    nv = len(idx) - 7
+    bits = 10 * nv // 16 * 16
+    if 10 * nv - bits > 8:
+        raise ValueError("more than 8 padding bits")
+    allbits = 0
+    for i in idx[:-3]:
+        allbits = (allbits << 10) | i
+    value, hdr = allbits & ((1 << (10 * nv)) - 1), allbits >> (10 * nv)
+    if value >> bits:
+        raise ValueError("padding bits set")
+    if (hdr >> 12) & 15 > (hdr >> 8) & 15:
+        raise ValueError("group threshold above group count")
+    return [bits, hdr >> 25, (hdr >> 20) & 31, (hdr >> 16) & 15, ((hdr >> 12) & 15) + 1, ((hdr >> 8) & 15) + 1,
+            (hdr >> 4) & 15, (hdr & 15) + 1, value]
+
+
+BW = list(mnemonic.BIP39.words)
+
+
+def ref_bip39(ent):
+    """BIP39 sentence of an entropy string of 16/20/24/28/32 bytes (bit strings, hashlib)"""
+    nb = len(ent) * 8
+    s = bin(int.from_bytes(ent, "big"))[2:].zfill(nb) + bin(hashlib.sha256(ent).digest()[0])[2:].zfill(8)[: nb // 32]
+    return " ".join(BW[int(s[i:i + 11], 2)] for i in range(0, len(s), 11))
+
+
+def ref_bip39_entropy(words):
+    """the entropy of a valid BIP39 sentence (list of words), None when it is not one"""
+    if len(words) not in (12, 15, 18, 21, 24) or any(w not in BW for w in words):
+        return None
+    s = "".join(bin(BW.index(w))[2:].zfill(11) for w in words)
+    nb = len(words) * 11 * 32 // 33
+    ent = int(s[:nb], 2).to_bytes(nb // 8, "big")
+    return ent if ref_bip39(ent).split(" ") == list(words) else None
+
+
+def ref_feistel(p, ident, e, pw, kdf, rounds=(0, 1, 2, 3)):
+    half = len(p) // 2
+    left, right = p[:half], p[half:]
+    salt = b"shamir" + ident.to_bytes(2, "big")
+    for i in rounds:
+        fo = kdf("sha256", bytes([i]) + pw, salt + right, 2500 << e, half)
+        left, right = right, bytes(x ^ y for x, y in zip(left, fo))
+    return right + left
+
+
+def ref_split(secret, k, n, rnd):
+    """the n shares (x = 0..n-1) of SLIP39 SplitSecret with the random strings taken from rnd in the order the
+    library draws them: digest-share randomness first, then the k-2 random shares"""
+    nb = len(secret)
+    if k == 1:
+        return [(i, secret) for i in range(n)]
+    if len(rnd) < rnd_need(nb, k):
+        raise ValueError("random stream too short")
+    random = rnd[:nb - 4]
+    base = [(i, rnd[nb - 4 + i * nb: nb - 4 + (i + 1) * nb]) for i in range(k - 2)]
+    pts = base + [(254, hmac.new(random, secret, "sha256").digest()[:4] + random), (255, secret)]
+    return base + [(i, ref_interp(i, pts)) for i in range(k - 2, n)]
+
+
+def ref_generate(entropy, k, n, pw, e, ident, rnd, kdf):
+    """the share texts SLIP39 prescribes for a single-level k-of-n split of `entropy` (one member per group)"""
+    enc = ref_feistel(entropy, ident, e, pw, kdf)
+    return [enc_share([len(entropy) * 8, ident, e, i, k, n, 0, 1, int.from_bytes(b, "big")])
+            for i, b in ref_split(enc, k, n, rnd)]
+
+
+def ref_two_level(secret, gt, gc, groups, rnd):
+    """field lists of all member shares of a two-level split (id 77, exponent 0, passphrase b"pw", stub KDF), the
+    random stream consumed group split first, then the member splits in group order"""
+    nb, pos, out = len(secret), 0, []
+    enc = ref_feistel(secret, 77, 0, b"pw", stub_kdf)
+    need = rnd_need(nb, gt)
+    gsplit = ref_split(enc, gt, gc, rnd[:need])
+    pos = need
+    for gi, gsh in gsplit:
+        mt, mc = groups[gi]
+        need = rnd_need(nb, mt)
+        for mi, msh in ref_split(gsh, mt, mc, rnd[pos:pos + need]):
+            out.append([nb * 8, 77, 0, gi, gt, gc, mi, mt, int.from_bytes(msh, "big")])
+        pos += need
+    return out
+
+
 def _raises(f, *a):
     try:
         f(*a)
@@ -290,11 +451,22 @@ def p_split_recover(secret, k, n, rnd, subsets):
 
 
 def p_pipeline(entropy, k, n, pw, e, ident, rnd, subsets, fast):
-    m = mnemonic.bytes_to_mnemonic(entropy, len(entropy) * 8)
+    m = ref_bip39(entropy)
     with patched(Rnd(ident, rnd), bool(fast)):
         shares = ShareSet.generate_shares(m, k, n, pw, e)
         if len(shares) != n:
             return f"{k}-of-{n} produced {len(shares)} share mnemonics"
+        if 0 <= ident < 32768 and 0 <= e < 32 and len(rnd) >= rnd_need(len(entropy), k):
+            # every share text is the one SLIP39 prescribes: identifier drawn (15 bits), exponent, index i, k, n,
+            # member 0 of 1, value = the share of the Feistel-encrypted secret (independent codec, split, Feistel)
+            want = ref_generate(entropy, k, n, pw, e, ident, rnd, stub_kdf if fast else hashlib.pbkdf2_hmac)
+            for i, (g, w) in enumerate(zip(shares, want)):
+                if g != w:
+                    try:
+                        d = dec_share(g)
+                    except Exception:
+                        d = "not decodable"
+                    return f"share {i} of {k}-of-{n} is not the SLIP39 share of the secret: fields {d}, expected {dec_share(w)}"
         for sub in subsets:
             ms = [shares[i] for i in sub]
             if len(set(sub)) >= k and len(set(sub)) == len(sub):
@@ -316,7 +488,7 @@ def p_pipeline(entropy, k, n, pw, e, ident, rnd, subsets, fast):
 def p_recover_repeat(entropy, k, n, pw, pw2, ident, rnd):
     """recover() is a function of its arguments: repeated calls on ONE ShareSet object with different
     passphrases return what a fresh object returns for that passphrase (no result is remembered)"""
-    m = mnemonic.bytes_to_mnemonic(entropy, len(entropy) * 8)
+    m = ref_bip39(entropy)
     with patched(Rnd(ident, rnd), True):
         shares = [Share.parse(x) for x in ShareSet.generate_shares(m, k, n, pw, 0)][:k]
 
@@ -337,7 +509,7 @@ def p_recover_repeat(entropy, k, n, pw, pw2, ident, rnd):
 
 def p_mixed(entropy, k, n, ident1, ident2, rnd, what):
     """shares of two different splits are never combined"""
-    m = mnemonic.bytes_to_mnemonic(entropy, len(entropy) * 8)
+    m = ref_bip39(entropy)
     with patched(Rnd(ident1, rnd), True):
         a = [Share.parse(x) for x in ShareSet.generate_shares(m, k, n, b"", 0)]
     e2, k2, n2, bits2 = 0, k, n, a[0].share_bit_length
@@ -468,8 +640,7 @@ def p_two_level(secret, gt, gc, groups, rnd, take):
 def p_mixed_pipeline(ent1, ent2, k1, n1, k2, n2, e1, e2, id1, id2, rnd1, rnd2, take1, take2):
     """share mnemonics of two generate_shares calls that differ in id, exponent, k, n or length are never
     combined by recover_mnemonic; the shares of each call alone are"""
-    m1 = mnemonic.bytes_to_mnemonic(ent1, len(ent1) * 8)
-    m2 = mnemonic.bytes_to_mnemonic(ent2, len(ent2) * 8)
+    m1, m2 = ref_bip39(ent1), ref_bip39(ent2)
     with patched(Rnd(id1, rnd1), True):
         a = ShareSet.generate_shares(m1, k1, n1, b"", e1)
     with patched(Rnd(id2, rnd2), True):
@@ -563,35 +734,236 @@ def p_secrecy(secret, k, n, rnd, sub, secret2):
 
 
 def p_other_lengths(secret, ident, e, pw):
-    """160/192/224-bit secrets (BIP39 mnemonics of 15/18/21 words): generate_shares and split_secret refuse them
-    (only 128/256 bits are split), but a 1-of-1 share of such a length built through the public pieces
-    (encrypt, Share, mnemonic) is parsed and recovered by recover_mnemonic to the BIP39 mnemonic of the secret"""
+    """secrets of 144..320 bits other than 128/256: split_secret refuses them, generate_shares refuses the BIP39
+    mnemonics of 15/18/21 words (160/192/224 bits) for every threshold; a 1-of-1 share of such a length built
+    through the public pieces (encrypt, Share, mnemonic) is parsed, and recover_mnemonic returns the BIP39 mnemonic
+    of the secret when one exists (160/192/224 bits) and refuses otherwise (144, 176, ... bits)"""
     nb = len(secret)
-    m = mnemonic.bytes_to_mnemonic(secret, nb * 8)
-    if not _raises(ShareSet.generate_shares, m, 1, 1) or not _raises(ShareSet.split_secret, secret, 1, 1):
-        return f"a {nb * 8}-bit secret was split"
-    with patched(fast=True):
+    bip = nb in (16, 20, 24, 28, 32)
+    m = ref_bip39(secret) if bip else None
+    with patched(Rnd(ident, bytes(600)), True):
+        for k, n in ((1, 1), (1, 3), (2, 3), (3, 3), (16, 16)):
+            if nb not in (16, 32):
+                if not _raises(ShareSet.split_secret, secret, k, n):
+                    return f"split_secret split a {nb * 8}-bit secret {k}-of-{n}"
+                if bip and not _raises(ShareSet.generate_shares, m, k, n, pw, e):
+                    return f"generate_shares split a {nb * 8}-bit secret ({len(m.split())} words) {k}-of-{n}"
         enc = ShareSet.encrypt(secret, ident, e, pw)
+        if enc != ref_feistel(secret, ident, e, pw, stub_kdf):
+            return "encrypt differs from the SLIP39 Feistel network"
         sh = Share(nb * 8, ident, e, 0, 1, 1, 0, 1, int.from_bytes(enc, "big"))
         txt = sh.mnemonic()
         if len(txt.split(" ")) != 7 + -(-nb * 8 // 10):
             return f"{nb * 8}-bit share mnemonic has {len(txt.split(' '))} words"
+        if txt != enc_share(sfields(sh)):
+            return f"{nb * 8}-bit share mnemonic differs from the SLIP39 encoding"
         back = Share.parse(txt)
         if sfields(back) != sfields(sh) or back.bytes != enc:
             return "parse(mnemonic(share)) differs from the share"
-        if ShareSet.recover_mnemonic([txt], pw) != m:
-            return "recover_mnemonic of the 1-of-1 share is not the BIP39 mnemonic of the secret"
+        if bip:
+            if ShareSet.recover_mnemonic([txt], pw) != m:
+                return "recover_mnemonic of the 1-of-1 share is not the BIP39 mnemonic of the secret"
+        elif not _raises(ShareSet.recover_mnemonic, [txt], pw):
+            return f"recover_mnemonic returned a mnemonic for a {nb * 8}-bit secret (no BIP39 sentence has that length)"
     return None
 
 
-PROPS = {"other_lengths": p_other_lengths, "mixed_pipeline": p_mixed_pipeline, "subst_text": p_subst_text, "canonical": p_canonical, "secrecy": p_secrecy,
+def p_parse_ref(idx, prefix_mask):
+    """Share.parse against the independent decoder on a word list (full words or 4-letter prefixes): both refuse, or
+    both accept with the same nine fields and the value as big-endian bytes"""
+    ws = [SL[i][:4] if (prefix_mask >> j) & 1 else SL[i] for j, i in enumerate(idx)]
+    try:
+        want = dec_share(" ".join(SL[i] for i in idx))
+    except Exception:
+        want = None
+    try:
+        s0 = Share.parse(" ".join(ws))
+        got = sfields(s0)
+    except Exception:
+        got = None
+    if got is None and want is None:
+        return None
+    if want is None:
+        return f"Share.parse accepted a text SLIP39 refuses ({len(idx)} words): fields {got}"
+    if got is None:
+        return f"Share.parse refused a valid share text ({len(idx)} words, fields {want})"
+    if got != want or s0.bytes != want[8].to_bytes(want[0] // 8, "big"):
+        return f"Share.parse returned {got}, the text encodes {want}"
+    return None
+
+
+def relabelled_fields(secret, kq, k, n, rnd, sub, level):
+    """field lists of the shares `sub` of a kq-of-n split (id 99, exponent 0, empty passphrase, stub KDF) whose
+    headers declare the threshold k: as group shares (level 0) or as the members of the only group (level 1)"""
+    nb = len(secret)
+    data = ref_split(ref_feistel(secret, 99, 0, b"", stub_kdf), kq, n, rnd)
+    if level == 0:
+        return [[nb * 8, 99, 0, i, k, n, 0, 1, int.from_bytes(data[i][1], "big")] for i in sub]
+    return [[nb * 8, 99, 0, 0, 1, 1, i, k, int.from_bytes(data[i][1], "big")] for i in sub]
+
+
+def p_relabelled(secret, kq, k, n, rnd, sub, level):
+    """fewer shares than the threshold their headers declare are refused even when the interpolated digest verifies:
+    the shares of a kq-of-n split, relabelled with a threshold k > kq, and kq <= len(sub) < k of them presented
+    (group threshold at level 0, member threshold at level 1); with the honest threshold kq the same shares recover"""
+    honest = relabelled_fields(secret, kq, kq, n, rnd, sub, level)
+    lying = relabelled_fields(secret, kq, k, n, rnd, sub, level)
+    with patched(fast=True):
+        if ShareSet([Share(*f) for f in honest]).recover(b"") != secret:
+            return f"{len(sub)} shares of a {kq}-of-{n} split do not recover the secret"
+        for how in ("objects", "texts"):
+            try:
+                if how == "objects":
+                    got = ShareSet([Share(*f) for f in lying]).recover(b"")
+                else:
+                    got = ShareSet.recover_mnemonic([enc_share(f) for f in lying], b"")
+            except Exception:
+                continue
+            return (f"{len(sub)} shares declaring the {'group' if level == 0 else 'member'} threshold {k} returned a secret "
+                    f"({how}): {got!r}")
+    return None
+
+
+def p_parse_ws(f, sep, lead, trail):
+    """white space between / around the words does not matter: str.split() semantics"""
+    ws = enc_share(f).split(" ")
+    s0 = Share.parse(_txt(lead) + _txt(sep).join(ws) + _txt(trail))
+    if sfields(s0) != list(f):
+        return "a share text with other white space parsed to a different share"
+    return None
+
+
+def p_refused(entropy, k, n, ident, rnd):
+    """generate_shares accepts exactly the valid BIP39 sentences of 12 and 24 words: 15/18/21 words (valid), word
+    counts that are no BIP39 length, a wrong checksum word, unknown / upper-case words are refused (an exception, not
+    a returned value) for every threshold; split_secret refuses every secret length other than 16 and 32 bytes"""
+    nb = len(entropy)
+    m = ref_bip39(entropy)
+    ws = m.split(" ")
+    if mnemonic.mnemonic_to_bytes(m) != entropy:
+        return "mnemonic_to_bytes does not invert the BIP39 encoding"
+    bad_last = BW[(BW.index(ws[-1]) ^ 1)]       # the last word carries the checksum bits: flipping its low bit breaks it
+    cands = [("one word more", ws + [ws[0]]), ("one word less", ws[:-1]), ("no words", []), ("two words more", ws + ws[:2]),
+             ("twice the words", ws + ws), ("wrong checksum word", ws[:-1] + [bad_last]),
+             ("unknown word", ws[:3] + ["zzzz"] + ws[4:]), ("upper-case word", [ws[0].upper()] + ws[1:])]
+    with patched(Rnd(ident, rnd), True):
+        for what, c in cands:
+            if ref_bip39_entropy(c) is not None and len(c) in (12, 24):
+                continue                         # (a doubled 12-word sentence whose checksum happens to hold)
+            try:
+                got = ShareSet.generate_shares(" ".join(c), k, n, b"", 0)
+            except Exception:
+                continue
+            return f"generate_shares accepted a sentence with {what} ({len(c)} words): returned {str(got)[:80]}"
+        try:
+            got = ShareSet.generate_shares(m, k, n, b"", 0)
+        except Exception as ex:  # noqa
+            if nb in (16, 32):
+                return f"a valid {len(ws)}-word mnemonic was refused {k}-of-{n}: {ex!r}"
+            got = None
+        if nb in (16, 32):
+            if not isinstance(got, list) or len(got) != n:
+                return f"generate_shares returned {str(got)[:60]} for a valid {len(ws)}-word mnemonic"
+        elif got is not None:
+            return f"generate_shares split a {len(ws)}-word mnemonic: only 128- and 256-bit secrets are split"
+    for ln in (0, 1, 4, 15, 17, 20, 24, 28, 31, 33, 48, 64):
+        try:
+            got = ShareSet.split_secret(bytes(ln), k, n)
+        except Exception:
+            continue
+        return f"split_secret accepted a {ln}-byte secret: returned {str(got)[:60]}"
+    return None
+
+
+def p_mixed_lengths(ent16, ent32, k, n, ident, e, rnd16, rnd32):
+    """a 128-bit and a 256-bit split that agree in identifier, exponent, k and n: a set containing shares of both
+    lengths is refused wherever the odd share stands (first, middle, last) and whichever length is in the majority —
+    by ShareSet(...) and by recover_mnemonic — although k or more shares are present"""
+    a = ref_generate(ent16, k, n, b"", e, ident, rnd16, stub_kdf)
+    b = ref_generate(ent32, k, n, b"", e, ident, rnd32, stub_kdf)
+    with patched(fast=True):
+        if ShareSet.recover_mnemonic(a[:k], b"") != ref_bip39(ent16) or ShareSet.recover_mnemonic(b[n - k:], b"") != ref_bip39(ent32):
+            return "the shares of one split alone do not recover its mnemonic"
+        sets = []
+        for size in range(2, min(n, 4) + 1):
+            for pos in range(size):
+                for maj, odd in ((a, b), (b, a)):
+                    sets.append((size, pos, maj[:pos] + [odd[pos]] + maj[pos + 1:size]))
+        if n == 1:
+            sets = [(2, 1, [a[0], b[0]]), (2, 0, [b[0], a[0]])]
+        for size, pos, texts in sets:
+            where = f"{size} shares, the one at position {pos} of the other length"
+            try:
+                ss = ShareSet([Share.parse(t) for t in texts])
+            except Exception:
+                ss = None
+            if ss is not None:
+                return f"ShareSet accepted shares of different lengths ({where}); share_bit_length = {ss.share_bit_length}"
+            try:
+                got = ShareSet.recover_mnemonic(texts, b"")
+            except Exception:
+                continue
+            return f"recover_mnemonic combined shares of different lengths ({where}) into {got!r}"
+    return None
+
+
+def p_shareset_edited(fl, pos, what):
+    """Share objects edited in place after construction: ShareSet re-reads the attributes, a set made inconsistent
+    that way is refused (identifier, exponent, threshold, count, length of one share; K > N on every share)"""
+    shares = [Share(*f) for f in fl]
+    ShareSet(list(shares))                       # consistent as built
+    t = shares[pos % len(shares)]
+    if what == 0:
+        t.id ^= 1
+    elif what == 1:
+        t.exponent += 1
+    elif what == 2:
+        t.group_threshold = t.group_threshold % t.group_count + 1 if t.group_count > 1 else 2
+    elif what == 3:
+        t.group_count = t.group_count % 16 + 1
+    elif what == 4:
+        t.share_bit_length = 384 - t.share_bit_length
+    else:
+        for s in shares:
+            s.group_threshold = s.group_count + 1
+    try:
+        ss = ShareSet(shares)
+    except Exception:
+        return None
+    return (f"ShareSet accepted a set made inconsistent by an in-place edit of "
+            f"{['id', 'exponent', 'group_threshold', 'group_count', 'share_bit_length', 'group_threshold > group_count'][what if what < 5 else 5]}"
+            f" (threshold {ss.group_threshold} of {ss.group_count})")
+
+
+def p_rs1024(cs, l):
+    """RS1024 against polynomial long division over GF(1024) (generator (x-a)(x-a^2)(x-a^3)): polymod, the created
+    checksum, verification of the created code word and of the code word with one symbol changed"""
+    l = list(l)
+    if shamir.rs1024_polymod(list(cs) + l) != ref_polymod(list(cs) + l):
+        return "rs1024_polymod differs from the remainder of the division by the generator polynomial"
+    c = shamir.rs1024_create_checksum(cs, l)
+    if list(c) != ref_rs_create(cs, l):
+        return "rs1024_create_checksum differs from the reference"
+    if shamir.rs1024_verify_checksum(cs, l + list(c)) is not True:
+        return "the created checksum does not verify"
+    full = l + list(c)
+    for p in range(len(full)):
+        bad = list(full)
+        bad[p] ^= 1 + (p * 37 + len(l)) % 1023
+        if shamir.rs1024_verify_checksum(cs, bad) is not False:
+            return f"a code word with symbol {p} changed verifies"
+    return None
+
+
+PROPS = {"other_lengths": p_other_lengths, "refused": p_refused, "mixed_lengths": p_mixed_lengths,
+         "shareset_edited": p_shareset_edited, "rs1024": p_rs1024, "parse_ref": p_parse_ref, "relabelled": p_relabelled, "parse_ws": p_parse_ws, "mixed_pipeline": p_mixed_pipeline, "subst_text": p_subst_text, "canonical": p_canonical, "secrecy": p_secrecy,
          "recover_repeat": p_recover_repeat, "gf": p_gf, "split_recover": p_split_recover, "pipeline": p_pipeline, "mixed": p_mixed,
          "share_rt": p_share_rt, "subst1_all": p_subst1_all, "subst_multi": p_subst_multi, "feistel": p_feistel,
          "two_level": p_two_level}
 
 # ---------------------------------------------------------------- generators
 
-PASS = [b"", b"TREZOR", "пароль".encode(), b"\xff\x00\x80", b"a" * 70]
+PASS = [b"", b"TREZOR", "пароль".encode(), b"\xff\x00\x80", b"a" * 70, b"b" * 63, b"c" * 64]
 
 
 def rnd_need(nb, k):
@@ -638,12 +1010,23 @@ def generate(ctx):
         cs = r.choice([b"shamir", b"", b"x", ctx.rbytes(r.randrange(0, 8))])
         yield ("corr", "rs1024_polymod", [l])
         yield ("corr", "rs1024_create", [cs, l])
-        full = l + shamir.rs1024_create_checksum(cs, l)
+        full = l + ref_rs_create(cs, l)
         yield ("corr", "rs1024_verify", [cs, full])
         if full:
             bad = list(full)
             bad[r.randrange(len(bad))] ^= 1 << r.randrange(10)
             yield ("corr", "rs1024_verify", [cs, bad])
+        if _ % 4 == 0:
+            ctx.label("rs1024/vs-polynomial-division-over-GF(1024)")
+            yield ("prop", "rs1024", [cs, l])
+    # symbols outside 0..1023 (no caller produces them; the model mirrors the integer arithmetic all the same:
+    # `<< 10 ^ v` is an exclusive or, which differs from `|` only here)
+    for _ in range(ctx.n(12, 100)):
+        l = [r.choice([r.randrange(1024), 1024, 1025, 2047, 0xFFFFF, 1 << 30, (1 << 30) + 5, r.getrandbits(40)])
+             for _ in range(r.randrange(1, 12))]
+        ctx.label("rs1024/out-of-domain-symbols")
+        yield ("corr", "rs1024_polymod", [l])
+        yield ("corr", "rs1024_verify", [b"shamir", l])
     # --- ShareSet.digest (HMAC-SHA256 truncated to 4 bytes)
     for _ in range(ctx.n(12, 200)):
         ctx.label("digest")
@@ -656,7 +1039,7 @@ def generate(ctx):
         shares.append(f)
         yield ("prop", "share_rt", [f])
         yield ("corr", "share_mnemonic", [f])
-        yield ("corr", "share_parse", [Share(*f).mnemonic().encode()])
+        yield ("corr", "share_parse", [enc_share(f).encode()])
     for _ in range(ctx.n(80, 2500)):
         f = rfields(ctx)
         j = r.randrange(9)
@@ -682,7 +1065,8 @@ def generate(ctx):
             gt = r.randrange(1, gc + 1) if r.random() < 0.9 else r.randrange(1, 17)
             idx[2] = (idx[2] & 0x3C0) | ((gt - 1) << 2) | ((gc - 1) >> 2)
             idx[3] = (idx[3] & 0xFF) | (((gc - 1) & 3) << 8)
-        full = idx + shamir.rs1024_create_checksum(b"shamir", idx)
+        full = idx + ref_rs_create(b"shamir", idx)
+        yield ("prop", "parse_ref", [full, r.getrandbits(len(full)) if r.random() < 0.3 else 0])
         ws = [SL[i] for i in full]
         k = r.random()
         if k < 0.1:
@@ -703,7 +1087,7 @@ def generate(ctx):
     # other lengths: accepted only with at most 8 (zero) padding bits (ec24589), then re-encoded to themselves
     for i in range(ctx.n(120, 1600)):
         f = rfields(ctx, edge=(i % 4 == 0))
-        idx = [SLI[w] for w in Share(*f).mnemonic().split(" ")]
+        idx = [SLI[w] for w in enc_share(f).split(" ")]
         nw = len(idx)
         kind = i % 4
         if kind == 0:
@@ -712,19 +1096,19 @@ def generate(ctx):
             # the same data words with the checksum of another customisation string / a flipped data word
             data = idx[:-3]
             data[r.randrange(4, len(data))] ^= 1 << r.randrange(10)
-            idx = data + shamir.rs1024_create_checksum(b"shamir", data)
+            idx = data + ref_rs_create(b"shamir", data)
             ctx.label("canonical/recomputed-checksum")
         elif kind == 2:
             # arbitrary header words (may violate K <= N), valid checksum
             data = [r.randrange(1024) for _ in range(4)] + idx[4:-3]
-            idx = data + shamir.rs1024_create_checksum(b"shamir", data)
+            idx = data + ref_rs_create(b"shamir", data)
             ctx.label("canonical/random-header")
         else:
             # k extra zero words in front of the value: 21..23 (34..36) words — a longer share or too much padding
             extra = r.choice([1, 1, 2, 3])
             if idx[4] < (256 if nw == 20 else 16):
                 data = idx[:4] + [0] * extra + idx[4:-3]
-                idx = data + shamir.rs1024_create_checksum(b"shamir", data)
+                idx = data + ref_rs_create(b"shamir", data)
                 ctx.label(f"canonical/non-standard-length-{len(idx)}-words")
         mask = r.getrandbits(len(idx)) if r.random() < 0.5 else 0
         yield ("prop", "canonical", [idx, mask])
@@ -738,19 +1122,18 @@ def generate(ctx):
             ctx.label(f"share/length-sweep/{bits}-bit")
             yield ("prop", "share_rt", [f])
             yield ("corr", "share_mnemonic", [f])
-            txt = Share(*f).mnemonic()
+            txt = enc_share(f)
             yield ("corr", "share_parse", [txt.encode()])
             yield ("corr", "share_reencode", [txt.encode()])
             yield ("prop", "canonical", [[SLI[w] for w in txt.split(" ")], r.getrandbits(8)])
     # 160/192/224-bit secrets end to end as far as the API goes (1-of-1 share through encrypt/Share/recover_mnemonic)
-    for nb in (20, 24, 28):
-        for j in range(ctx.n(2, 30)):
+    for nb in range(16, 42, 2):
+        for j in range(ctx.n(2, 30) if nb in (20, 24, 28) else ctx.n(1, 8)):
             secret, ident, e, pw = ctx.rbytes(nb), r.getrandbits(15), r.choice([0, 1]), r.choice(PASS)
             ctx.label(f"other-lengths/{nb * 8}-bit-secret")
             yield ("prop", "other_lengths", [secret, ident, e, pw])
-            with patched(fast=True):
-                enc = ShareSet.encrypt(secret, ident, e, pw)
-            txt = Share(nb * 8, ident, e, 0, 1, 1, 0, 1, int.from_bytes(enc, "big")).mnemonic()
+            enc = ref_feistel(secret, ident, e, pw, stub_kdf)
+            txt = enc_share([nb * 8, ident, e, 0, 1, 1, 0, 1, int.from_bytes(enc, "big")])
             yield ("corr", "recover_mnemonic_fast", [[txt.encode()], pw])
             yield ("corr", "recover_shares_fast", [[[nb * 8, ident, e, 0, 1, 1, 0, 1, int.from_bytes(enc, "big")]], pw])
     # the witnesses of C15_share_parse_rejects_21 (21 words with 12 zero padding bits: rejected since ec24589; they
@@ -766,18 +1149,30 @@ def generate(ctx):
     # C15_share_parse_lengths
     for nw in range(18, 41):
         data = [r.randrange(1024) for _ in range(2)] + [0, 0] + [0, 0] + [r.randrange(1024) for _ in range(nw - 9)]
-        idx = data + shamir.rs1024_create_checksum(b"shamir", data)
+        idx = data + ref_rs_create(b"shamir", data)
         ctx.label(f"canonical/length-sweep/{'accepted' if nw >= 20 and (10 * (nw - 7)) % 16 <= 8 else 'rejected'}")
         yield ("prop", "canonical", [idx, 0])
+        yield ("prop", "parse_ref", [idx, 0])
         yield ("corr", "share_parse", [" ".join(SL[j] for j in idx).encode()])
         yield ("corr", "share_reencode", [" ".join(SL[j] for j in idx).encode()])
+        # the top value word on both sides of the padding boundary: 2^(10-pad) - 1 (all share bits set, accepted),
+        # 2^(10-pad) (lowest padding bit set, refused), 1023; header words random (threshold/count any)
+        pad = (10 * (nw - 7)) % 16
+        for top in sorted({(1 << (10 - pad)) - 1, min(1 << (10 - pad), 1023), 1023, 1 << 9} if pad <= 10 else {0, 1, 1023}):
+            for hdr in ([0, 0], [r.randrange(1024), r.randrange(1024)]):
+                d2 = data[:2] + hdr + [top] + data[5:]
+                i2 = d2 + ref_rs_create(b"shamir", d2)
+                ctx.label("parse/padding-boundary")
+                yield ("prop", "parse_ref", [i2, r.getrandbits(nw) if hdr[0] else 0])
+                yield ("prop", "canonical", [i2, 0])
+                yield ("corr", "share_parse", [" ".join(SL[j] for j in i2).encode()])
     # corruption: every single-word substitution of sampled shares, sampled double/triple
     for j, f in enumerate(shares[: ctx.n(4, 60)]):
         nw = 20 if f[0] == 128 else 33
         for pos in (range(nw) if j < ctx.n(2, 12) else r.sample(range(nw), 3)):
             ctx.label(f"substitution/single-all-1023/{nw}-word")
             yield ("prop", "subst1_all", [f, pos])
-        ws = Share(*f).mnemonic().split(" ")
+        ws = enc_share(f).split(" ")
         for _ in range(ctx.n(60, 1500)):
             cnt = r.choice([1, 2, 2, 3, 3, 3])
             poss = r.sample(range(nw), cnt)
@@ -805,7 +1200,7 @@ def generate(ctx):
                 ctx.label("split/subsets", len(subs))
                 yield ("corr", "split_secret", [secret, k, n, rnd])
                 yield ("prop", "split_recover", [secret, k, n, rnd, subs])
-                data = i_split_secret(secret, k, n, rnd)
+                data = [[i, b] for i, b in ref_split(secret, k, n, rnd)]
                 if k > 1:
                     random = rnd[:nb - 4]
                     ds = hmac.new(random, secret, "sha256").digest()[:4] + random
@@ -861,36 +1256,79 @@ def generate(ctx):
         ctx.label(f"feistel/pbkdf2/e={e}")
         yield ("prop", "feistel", [p, ident, e, pw, 0])
         yield ("corr", "encrypt", [p, ident, e, pw])
-        yield ("corr", "decrypt", [ShareSet.encrypt(p, ident, e, pw), ident, e, pw])
+        yield ("corr", "decrypt", [ref_feistel(p, ident, e, pw, hashlib.pbkdf2_hmac), ident, e, pw])
     for e in ([1, 2] if not thorough else []):
         yield ("prop", "feistel", [ctx.rbytes(16), r.randrange(32768), e, b"pw", 0])
     # --- whole pipeline with the stub KDF, all 136 (k, n)
     for n in range(1, 17):
         for k in range(1, n + 1):
             nb = [16, 32][(n + k) % 2]
-            entropy = ctx.rbytes(nb)
-            pw, e, ident = r.choice(PASS), r.choice([0, 1, 2, 3]), r.getrandbits(15)
+            entropy = r.choice([ctx.rbytes(nb)] * 5 + [bytes(nb), b"\xff" * nb, bytes(3) + ctx.rbytes(nb - 3), ctx.rbytes(nb - 1) + b"\x00"])
+            pw, e, ident = r.choice(PASS), r.choice([0, 1, 2, 3]), r.choice([r.getrandbits(15)] * 4 + [0, 1, 31, 32, 32767, 1 << 14])
             rnd = ctx.rbytes(rnd_need(nb, k))
-            m = mnemonic.bytes_to_mnemonic(entropy, nb * 8)
+            m = ref_bip39(entropy)
             subs = subsets_for(r, k, n, 1, n <= 3)
             subs.append([0, 0] if n == 1 or k > 2 else [0, 0, 1])          # duplicated share
             ctx.label("pipeline/stub-kdf")
             yield ("prop", "pipeline", [entropy, k, n, pw, e, ident, rnd, subs, 1])
             yield ("corr", "generate_shares_fast", [m.encode(), k, n, pw, e, ident, rnd])
-            sh = IMPL["generate_shares_fast"](m.encode(), k, n, pw, e, ident, rnd)
+            sh = ref_generate(entropy, k, n, pw, e, ident, rnd, stub_kdf)
             for sub in subs[: ctx.n(3, 8)]:
                 ctx.label("recover_mnemonic/>=k" if len(set(sub)) >= k else "recover_mnemonic/<k")
                 yield ("corr", "recover_mnemonic_fast", [[sh[i].encode() for i in sub], pw])
             yield ("corr", "recover_mnemonic_fast", [[sh[i].encode() for i in subs[0]], pw + b"x"])
     # other mnemonic lengths (15/18/21 words are refused), invalid mnemonic, bad k/n
     for nb in (20, 24, 28):
-        m = mnemonic.bytes_to_mnemonic(ctx.rbytes(nb), nb * 8)
+        m = ref_bip39(ctx.rbytes(nb))
         yield ("corr", "generate_shares_fast", [m.encode(), 2, 3, b"", 0, 5, ctx.rbytes(200)])
-    m16 = mnemonic.bytes_to_mnemonic(ctx.rbytes(16), 128)
+    m16 = ref_bip39(ctx.rbytes(16))
     for (k, n) in [(0, 1), (2, 1), (1, 17), (17, 17), (3, 2)]:
         yield ("corr", "generate_shares_fast", [m16.encode(), k, n, b"", 0, 5, ctx.rbytes(600)])
     yield ("corr", "generate_shares_fast", [(m16 + " abandon").encode(), 1, 1, b"", 0, 5, b""])
     yield ("corr", "generate_shares_fast", [m16.encode(), 2, 3, b"", 0, 5, ctx.rbytes(5)])      # random stream too short
+    # sentences generate_shares must refuse (15/18/21 words, non-BIP39 word counts, wrong checksum, unknown words) and
+    # secret lengths split_secret must refuse, for several thresholds; valid 12/24-word sentences are accepted
+    for nb in (16, 20, 24, 28, 32):
+        for (k, n) in [(1, 1), (2, 3), (3, 3), (1, 16), (16, 16)][: ctx.n(3, 5)]:
+            ctx.label(f"refused-sentences/{nb * 8 * 33 // 32 // 11}-words")
+            yield ("prop", "refused", [ctx.rbytes(nb), k, n, r.getrandbits(15), ctx.rbytes(rnd_need(nb, k))])
+    # --- shares of a 128-bit and a 256-bit split with the same id/exponent/k/n in one set, odd one at every position
+    for (k, n) in [(1, 1), (1, 2), (1, 3), (2, 2), (2, 3), (1, 4), (2, 4), (3, 4), (4, 4), (3, 5), (2, 16), (4, 16)][: ctx.n(12, 12)]:
+        for _ in range(ctx.n(1, 6)):
+            ctx.label(f"mixed-lengths/{'k=1' if k == 1 else 'k=n' if k == n else 'mid'}")
+            yield ("prop", "mixed_lengths", [ctx.rbytes(16), ctx.rbytes(32), k, n, r.getrandbits(15), r.choice([0, 1]),
+                                             ctx.rbytes(rnd_need(16, k)), ctx.rbytes(rnd_need(32, k))])
+    # --- fewer shares than the DECLARED threshold although their digest verifies (shares of a lower-threshold split)
+    for i in range(ctx.n(40, 400)):
+        nb = r.choice([16, 32])
+        kq = r.choice([2, 2, 3, 4])
+        k = r.choice([kq + 1, kq + 1, 16, r.randrange(kq + 1, 17)])
+        n = r.choice([k, 16, r.randrange(k, 17)])
+        m = r.choice([kq, k - 1, r.randrange(kq, k)])
+        sub = r.sample(range(n), m)
+        level = i % 2
+        secret, rnd = ctx.rbytes(nb), ctx.rbytes(rnd_need(nb, kq))
+        ctx.label(f"relabelled-threshold/{'group' if level == 0 else 'member'}-level")
+        yield ("prop", "relabelled", [secret, kq, k, n, rnd, sub, level])
+        yield ("corr", "recover_shares_fast", [relabelled_fields(secret, kq, k, n, rnd, sub, level), b""])
+        yield ("corr", "recover_shares_fast", [relabelled_fields(secret, kq, kq, n, rnd, sub, level), b""])
+    # --- white space of share texts
+    for i in range(ctx.n(24, 300)):
+        f = rfields(ctx)
+        sep = r.choice([b"\t", b"\n", b"  ", b" \r\n", b"\xa0", b"\x1f", b"\x85", b"\x0b\x0c"])
+        lead, trail = r.choice([b"", b" ", b"\n\t"]), r.choice([b"", b" ", b"\n", b"\xa0 "])
+        ctx.label("parse/white-space")
+        yield ("prop", "parse_ws", [f, sep, lead, trail])
+        yield ("corr", "share_parse", [lead + sep.join(w.encode() for w in enc_share(f).split(" ")) + trail])
+    # --- Share objects edited in place, then handed to ShareSet
+    for i in range(ctx.n(36, 600)):
+        bits = r.choice([128, 256])
+        n = r.randrange(2, 17)
+        k = r.randrange(1, n + 1)
+        ident, e = r.getrandbits(15), r.choice([0, 1, 31])
+        fl = [[bits, ident, e, gi, k, n, 0, 1, r.getrandbits(bits)] for gi in r.sample(range(n), r.randrange(2, min(n, 5) + 1))]
+        ctx.label(f"shareset/in-place-edit-{i % 6}")
+        yield ("prop", "shareset_edited", [fl, r.choice([0, len(fl) - 1, r.randrange(len(fl))]), i % 6])
     # --- a few runs through real PBKDF2 (2500 << e iterations x 4 rounds, model side over the HMAC oracle)
     for i in range(ctx.n(2, 6)):
         nb = [16, 32][i % 2]
@@ -898,11 +1336,11 @@ def generate(ctx):
         k, n = [(2, 3), (3, 5), (1, 2), (5, 5), (2, 16), (16, 16)][i % 6]
         e = 0 if not thorough else i % 3
         pw, ident, rnd = PASS[i % len(PASS)], r.getrandbits(15), ctx.rbytes(rnd_need(nb, k))
-        m = mnemonic.bytes_to_mnemonic(entropy, nb * 8)
+        m = ref_bip39(entropy)
         ctx.label(f"pipeline/pbkdf2/e={e}")
         yield ("prop", "pipeline", [entropy, k, n, pw, e, ident, rnd, [list(range(k)), list(range(n))[::-1][:k], list(range(k - 1))], 0])
         yield ("corr", "generate_shares", [m.encode(), k, n, pw, e, ident, rnd])
-        sh = IMPL["generate_shares"](m.encode(), k, n, pw, e, ident, rnd)
+        sh = ref_generate(entropy, k, n, pw, e, ident, rnd, hashlib.pbkdf2_hmac)
         yield ("corr", "recover_mnemonic", [[s.encode() for s in sh[n - k:]], pw])
     # --- repeated recover() calls on one object with different passphrases
     for i in range(ctx.n(4, 30)):
@@ -956,7 +1394,7 @@ def generate(ctx):
         base = [[bits, ident, e, gi, k, n, 0, 1, r.getrandbits(bits)] for gi in range(n)]
         fl = [list(x) for x in r.sample(base, r.randrange(0, n + 1))]
         mut = r.randrange(10)
-        if fl and mut < 7:
+        if fl and mut < 8:
             t = fl[r.randrange(len(fl))]
             if mut == 0:
                 t[1] ^= 1 + r.getrandbits(10)
@@ -973,6 +1411,10 @@ def generate(ctx):
                 fl.append(list(t))                       # duplicated (group, member) index
             elif mut == 6:
                 t[3] = r.choice([t[5], 15, t[5] - 1])     # group index >= group count
+            elif mut == 7:
+                # a second member of a 1-of-m group carrying ANOTHER value, before or after the first
+                t2 = t[:6] + [r.randrange(1, 16), 1, r.getrandbits(t[0])]
+                fl.insert(r.choice([0, len(fl), fl.index(t)]), t2)
             ctx.label(f"shareset/mutation-{mut}")
         else:
             ctx.label("shareset/consistent")
@@ -987,28 +1429,20 @@ def generate(ctx):
     # two-level sets (member thresholds > 1)
     for i in range(ctx.n(40, 1200)):
         nb = r.choice([16, 32])
-        gc = r.randrange(1, 5)
+        gc = r.randrange(1, 5) if i % 8 else 16
         gt = r.randrange(1, gc + 1)
         groups = []
         for _ in range(gc):
-            mc = r.randrange(1, 5)
+            mc = r.randrange(1, 5) if i % 8 != 1 else 16
             groups.append([r.randrange(1, mc + 1), mc])
         take = [r.sample(range(mc), r.randrange(0, mc + 1)) for (_, mc) in groups]
         if r.random() < 0.5:
             take = [r.sample(range(mc), r.choice([mt, mc])) if r.random() < 0.8 else [] for (mt, mc) in groups]
-        rnd = ctx.rbytes(2000)
+        rnd = ctx.rbytes(rnd_need(nb, gt) + sum(rnd_need(nb, mt) for mt, _ in groups) + 8)
         secret = ctx.rbytes(nb)
-        ctx.label("two-level")
+        ctx.label("two-level" + ("/16-groups" if gc == 16 else "/16-members" if i % 8 == 1 else ""))
         yield ("prop", "two_level", [secret, gt, gc, groups, rnd, take])
-        rr = Rnd(0, rnd)
-        fl = []
-        with patched(rr, True):
-            enc = ShareSet.encrypt(secret, 77, 0, b"pw")
-            for gi, gsh in ShareSet.split_secret(enc, gt, gc):
-                mt, mc = groups[gi]
-                for mi, msh in ShareSet.split_secret(gsh, mt, mc):
-                    if mi in take[gi]:
-                        fl.append([nb * 8, 77, 0, gi, gt, gc, mi, mt, int.from_bytes(msh, "big")])
+        fl = [f for f in ref_two_level(secret, gt, gc, groups, rnd) if f[6] in take[f[3]]]
         if r.random() < 0.2 and fl:
             fl[r.randrange(len(fl))][7] = r.randrange(1, 5)   # inconsistent member threshold in a group
             ctx.label("two-level/member-threshold-mismatch")
